@@ -5,6 +5,7 @@ import (
 	"math"
 	"os"
 	"path/filepath"
+	"reflect"
 	"runtime"
 	"sort"
 	"strings"
@@ -301,6 +302,45 @@ func (w *Wallet) WorkerIdle(timeout time.Duration) bool {
 			return false // simulated crash
 		}
 		if time.Now().After(deadline) {
+			return false
+		}
+		time.Sleep(500 * time.Microsecond)
+	}
+}
+
+// queuedTasks reads the length of the worker's task queue (unexported: WalletManager.ntfnsHandler.taskChan.C).
+func (w *Wallet) queuedTasks() int {
+	defer func() { recover() }()
+	h := reflect.ValueOf(w.W).Elem().FieldByName("ntfnsHandler")
+	if !h.IsValid() || h.IsNil() {
+		return 0
+	}
+	tc := h.Elem().FieldByName("taskChan")
+	if !tc.IsValid() || tc.IsNil() {
+		return 0
+	}
+	c := tc.Elem().FieldByName("C")
+	if !c.IsValid() || c.Kind() != reflect.Chan {
+		return 0
+	}
+	return c.Len()
+}
+
+// WorkerParked waits until the background worker sits in its select with an empty queue (whatever the
+// wallet statuses say): every task that was queued - also by an operation that reported failure - has run.
+func (w *Wallet) WorkerParked(timeout time.Duration) bool {
+	deadline := time.Now().Add(timeout)
+	parked := func() bool {
+		return w.queuedTasks() == 0 && w.Points.Count("worker.loop") == w.Points.Count("worker.task")+1
+	}
+	for {
+		if parked() {
+			time.Sleep(2 * time.Millisecond)
+			if parked() {
+				return true
+			}
+		}
+		if w.DB.Frozen() || time.Now().After(deadline) {
 			return false
 		}
 		time.Sleep(500 * time.Microsecond)
